@@ -111,10 +111,13 @@ def returnParam (style : Style) (r : Rets) : Res Param :=
 def afterwardText (us : List (List Str)) : Str :=
   joinWith ['\n'] (us.map fun u => joinWith ['\n'] (u.map fun s => if endsWith s [':'] then s else tab4 ++ s))
 
+/-- a unit whose first line ends with a colon starts the free text after the entries -/
+def startsSection (u : List Str) : Bool := match u with | l0 :: _ => endsWith l0 [':'] | [] => false
+
 /-- `parse_docstring` for a numpydoc / google text -/
 def parseDocstring (style : Style) (doc : Str) (emitDefaultDoc : Bool) (inferType := false) (wordWrap := true) : Res IR :=
   (scanPhase style doc).bind fun sc =>
-  let idx := sc.args.findIdx? fun u => match u with | l0 :: _ => endsWith l0 [':'] | [] => false
+  let idx := sc.args.findIdx? startsSection
   let (units, doc1) : List (List Str) × Str := match idx with
     | some k => if k == 0 then (sc.args, sc.doc)
                 else (sc.args.take k, sc.doc ++ ['\n', '\n', '\n'] ++ afterwardText (sc.args.drop k))
